@@ -338,7 +338,12 @@ func reifyStruct(opts *options, orig reflect.Value, cfg *Config) Error {
 					// a nil pointer to an inlined struct is treated like any other
 					// nil pointer field: allocated only if the configuration has a
 					// setting for it, that is for one of the fields of the struct
-					mentioned, err := mentionsFieldOf(cfg, base, fInfo.options)
+					if base == to.Type() || typeIn(opts.inlining, base) {
+						// a struct type that inlines (a pointer to) itself: the
+						// nil pointer ends the recursion
+						continue
+					}
+					mentioned, err := mentionsFieldOf(cfg, base, fInfo.options, nil)
 					if err != nil {
 						return err
 					}
@@ -346,7 +351,9 @@ func reifyStruct(opts *options, orig reflect.Value, cfg *Config) Error {
 						continue
 					}
 					st := reflect.New(base)
-					if err := reifyInto(fInfo.options, st, cfg); err != nil {
+					stOpts := *fInfo.options
+					stOpts.inlining = append(opts.inlining[:len(opts.inlining):len(opts.inlining)], to.Type(), base)
+					if err := reifyInto(&stOpts, st, cfg); err != nil {
 						return err
 					}
 					vField.Set(pointerize(vField.Type(), base, st.Elem()))
@@ -397,7 +404,11 @@ func reifyStruct(opts *options, orig reflect.Value, cfg *Config) Error {
 
 // mentionsFieldOf reports whether cfg has a (non null) setting for one of the
 // fields of the struct type t, the fields of inlined structs included.
-func mentionsFieldOf(cfg *Config, t reflect.Type, opts *options) (bool, Error) {
+//
+// within holds the struct types the walk is inside of: a type inlining itself
+// is looked at once.
+func mentionsFieldOf(cfg *Config, t reflect.Type, opts *options, within []reflect.Type) (bool, Error) {
+	within = append(within[:len(within):len(within)], t)
 	st := reflect.New(t).Elem()
 	for i := 0; i < t.NumField(); i++ {
 		fInfo, skip, err := accessField(st, i, opts)
@@ -410,7 +421,10 @@ func mentionsFieldOf(cfg *Config, t reflect.Type, opts *options) (bool, Error) {
 		if fInfo.tagOptions.squash {
 			switch base := chaseTypePointers(fInfo.ftype); base.Kind() {
 			case reflect.Struct:
-				if ok, err := mentionsFieldOf(cfg, base, fInfo.options); ok || err != nil {
+				if typeIn(within, base) {
+					continue
+				}
+				if ok, err := mentionsFieldOf(cfg, base, fInfo.options, within); ok || err != nil {
 					return ok, err
 				}
 			default: // an inlined map or list takes whatever the namespace holds
@@ -432,6 +446,15 @@ func mentionsFieldOf(cfg *Config, t reflect.Type, opts *options) (bool, Error) {
 		}
 	}
 	return false, nil
+}
+
+func typeIn(types []reflect.Type, t reflect.Type) bool {
+	for _, have := range types {
+		if have == t {
+			return true
+		}
+	}
+	return false
 }
 
 func reifyGetField(
